@@ -166,5 +166,10 @@ pub(crate) fn parse_expr(
     tokens: TokenStream,
 ) -> Option<ptr::P<ast::Expr>> {
     let mut parser = build_parser(context, tokens);
-    parser.parse_expr().ok()
+    let expr = parser.parse_expr().ok()?;
+    // The tokens must be exactly one expression.
+    if parser.token.kind != TokenKind::Eof {
+        return None;
+    }
+    Some(expr)
 }
